@@ -370,11 +370,16 @@ class RunLengthArray(NPSIndexable, np.lib.mixins.NDArrayOperatorsMixin):
             return self.__class__(self._events, ufunc(self._values))
         assert len(inputs) == 2, f"Only unary and binary operations supported for runlengtharray {len(inputs)}"
 
-        if isinstance(inputs[1], Number):
+        if self._is_scalar(inputs[1]):
             return self.__class__(self._events, ufunc(self._values, inputs[1]))
-        elif isinstance(inputs[0], Number):
+        elif self._is_scalar(inputs[0]):
             return self.__class__(self._events, ufunc(inputs[0], self._values))
         return self._apply_binary_func(*inputs, ufunc)
+
+    @staticmethod
+    def _is_scalar(operand):
+        # np.bool_ is not a numbers.Number, and numpy hands its scalars over as 0-d arrays in comparisons
+        return isinstance(operand, (Number, np.generic)) or (isinstance(operand, np.ndarray) and operand.ndim == 0)
 
     def sum(self, axis=-1, out=None):
         lengths = np.diff(self._events)
